@@ -59,6 +59,10 @@ type GenesisOpts struct {
 	Balance     *big.Int // initial balance per account (default 10^24)
 	PartSize    int      // consensus param BlockPartSizeBytes (0 = default)
 	MaxTxs      int
+	// Tokens funds every account with TokenBalance of each listed token id at genesis
+	// (plain token ids without a contract behind them: account-based token transfers only).
+	Tokens       []common.Address
+	TokenBalance *big.Int
 }
 
 type Genesis struct {
@@ -250,6 +254,13 @@ func BuildGenesis(o GenesisOpts) (*Genesis, error) {
 	blockStore.SaveInitHeight(types.BlockHeightZero)
 	for _, a := range g.Accounts {
 		storeState.AddBalance(a.Addr, new(big.Int).Set(o.Balance))
+		for _, t := range o.Tokens {
+			tb := o.TokenBalance
+			if tb == nil {
+				tb = big.NewInt(1000000000000)
+			}
+			storeState.AddTokenBalance(a.Addr, t, new(big.Int).Set(tb))
+		}
 	}
 	// deployOriginalContract
 	for _, c := range []struct {
